@@ -190,62 +190,89 @@ class IntermediateCodeGen(AbstractCodeGen):
             if moduleCompliance:
                 self._complianceOids.append(outDict['oid'])
 
-    def genNumericOid(self, oid, seen=()):
-        numericOid = ()
+    def genNumericOid(self, oid):
+        numericOid = []
 
-        for part in oid:
-            if isinstance(part, tuple):
-                parent, module = part
-                if parent == 'iso':
-                    numericOid += (1,)
-                    continue
+        # chains of parents may be longer than the interpreter's stack
+        expanding = set()
+        stack = [(iter(oid), None)]
 
-                if module not in self.symbolTable:
-                    # XXX do getname for possible future borrowed mibs
-                    raise error.PySmiSemanticError('no module "%s" in symbolTable' % module)
+        while stack:
+            parts, expanded = stack[-1]
 
-                if parent not in self.symbolTable[module]:
-                    raise error.PySmiSemanticError('no symbol "%s" in module "%s"' % (parent, module))
+            for part in parts:
+                if isinstance(part, tuple):
+                    parent, module = part
+                    if parent == 'iso':
+                        numericOid.append(1)
+                        continue
 
-                if 'oid' not in self.symbolTable[module][parent]:
-                    raise error.PySmiSemanticError('symbol "%s" in module "%s" has no OID' % (parent, module))
+                    if module not in self.symbolTable:
+                        # XXX do getname for possible future borrowed mibs
+                        raise error.PySmiSemanticError('no module "%s" in symbolTable' % module)
 
-                if part in seen:
-                    raise error.PySmiSemanticError('OID of symbol "%s" in module "%s" is defined through itself' % (parent, module))
+                    if parent not in self.symbolTable[module]:
+                        raise error.PySmiSemanticError('no symbol "%s" in module "%s"' % (parent, module))
 
-                numericOid += self.genNumericOid(self.symbolTable[module][parent]['oid'], seen + (part,))
+                    if 'oid' not in self.symbolTable[module][parent]:
+                        raise error.PySmiSemanticError('symbol "%s" in module "%s" has no OID' % (parent, module))
+
+                    if part in expanding:
+                        raise error.PySmiSemanticError('OID of symbol "%s" in module "%s" is defined through itself' % (parent, module))
+
+                    expanding.add(part)
+                    stack.append((iter(self.symbolTable[module][parent]['oid']), part))
+                    break
+
+                else:
+                    numericOid.append(part)
 
             else:
-                numericOid += (part,)
+                stack.pop()
+                expanding.discard(expanded)
 
-        return numericOid
+        return tuple(numericOid)
 
-    def getBaseType(self, symName, module, seen=()):
-        if (symName, module) in seen:
-            raise error.PySmiSemanticError('type "%s" in module "%s" is defined through itself' % (symName, module))
+    def getBaseType(self, symName, module):
+        # chains of types may be longer than the interpreter's stack
+        seen = set()
+        subtypes = []
 
-        if module not in self.symbolTable:
-            raise error.PySmiSemanticError('no module "%s" in symbolTable' % module)
+        while True:
+            if (symName, module) in seen:
+                raise error.PySmiSemanticError('type "%s" in module "%s" is defined through itself' % (symName, module))
 
-        if symName not in self.symbolTable[module]:
-            raise error.PySmiSemanticError('no symbol "%s" in module "%s"' % (symName, module))
+            seen.add((symName, module))
 
-        symType, symSubtype = self.symbolTable[module][symName].get('syntax', (('', ''), ''))
-        if not symType[0]:
-            raise error.PySmiSemanticError('unknown type for symbol "%s"' % symName)
+            if module not in self.symbolTable:
+                raise error.PySmiSemanticError('no module "%s" in symbolTable' % module)
 
-        if symType[0] in self.baseTypes:
-            return symType, symSubtype
+            if symName not in self.symbolTable[module]:
+                raise error.PySmiSemanticError('no symbol "%s" in module "%s"' % (symName, module))
 
-        else:
-            baseSymType, baseSymSubtype = self.getBaseType(*symType, seen=seen + ((symName, module),))
+            symType, symSubtype = self.symbolTable[module][symName].get('syntax', (('', ''), ''))
+            if not symType[0]:
+                raise error.PySmiSemanticError('unknown type for symbol "%s"' % symName)
+
+            subtypes.append(symSubtype)
+
+            if symType[0] in self.baseTypes:
+                break
+
+            symName, module = symType
+
+        # named values add up along the chain, nearest first
+        symSubtype = subtypes.pop()
+
+        while subtypes:
+            baseSymSubtype, symSubtype = symSubtype, subtypes.pop()
             if isinstance(baseSymSubtype, list):
                 if isinstance(symSubtype, list):
                     symSubtype = symSubtype + baseSymSubtype
                 else:
                     symSubtype = baseSymSubtype
 
-            return baseSymType, symSubtype
+        return symType, symSubtype
 
     # Clause generation functions
 
